@@ -55,6 +55,9 @@ def render(file, indent):
                 out[-1] = out[-1] + " " + t
             else:
                 out.append(t)
+    if indent:
+        pre, post = {1: ("void f()\n{", "}"), 2: ("class K\n{\npublic:", "};"), 3: ("namespace n {\nstruct s\n{", "};\n}")}[indent]
+        out = [pre] + [("    " + l.replace("\n", "\n    ")) if l else l for l in out] + [post]
     return "\n".join(out) + "\n", ctext
 
 
@@ -93,14 +96,14 @@ def _job(a):
     unc, tmp, i, c = a
     src = os.path.join(tmp, "c%d.c" % i)
     cfg = os.path.join(tmp, "c%d.cfg" % i)
-    text, ctext = render(c["file"], 0)
+    text, ctext = render(c["file"], c.get("ctx", 0))
     obs.write(src, text)
     cfgt = "".join("%s=%s\n" % (MODEL[k], "true" if v else "false") for k, v in sorted(c["o"].items())) + "".join("%s=%s\n" % kv for kv in c["layout"])
     obs.write(cfg, cfgt)
     rc, so, se = sh([unc, "-c", cfg, "-q", "-l", "CPP", "-f", src], cwd=tmp, timeout=20)
     os.unlink(src)
     os.unlink(cfg)
-    ev = dict(c, id="cmt|%d" % i, rc=rc, ctext=ctext, textOut="", codeIn=[], codeOut=[], outc=[])
+    ev = dict(c, id="cmt|%d" % i, rc=rc, wrap=any(n == "cmt_width" and v != "0" for n, v in c["layout"]), ctext=ctext, textOut="", codeIn=[], codeOut=[], outc=[])
     if rc == 0:
         out = obs.decode(so)
         ev["codeIn"] = [t[1] for t in lex.lex(text, "CPP") if t[0] == "tok"]
@@ -157,7 +160,7 @@ def run(ctx):
                 if o["cppGroup"]:
                     o["cppToC"] = True
             layout = [(n, ctx.rng.choice(v)) for n, v in LAYOUT if ctx.rng.random() < 0.5 or n == "nl_max"]
-            cases.append({"file": f, "o": o, "layout": layout})
+            cases.append({"file": f, "o": o, "layout": layout, "ctx": ctx.rng.choice([0, 0, 1, 1, 2, 3])})
     tmp = ctx.work.sub("cmt")
     evs = pmap_proc(_job, [(unc, tmp, i, c) for i, c in enumerate(cases)], nproc=14)
     ctx.cov["evaluations"] = len(evs)
@@ -191,4 +194,4 @@ def run(ctx):
                        "and every file of <= 3 items over a smaller alphabet; each is rendered with unique words and formatted under one kind / "
                        "grouping option at a time and seeded combinations, with seeded values of 17 layout options; the non-blank characters of "
                        "the comment bodies, the code tokens and the grouping are judged by CmtTrace.tla")
-    ctx.assumptions += ["file level (brace level 0), C++ input", "header / closing-brace comment insertion is outside the model", "not one of the listed properties"]
+    ctx.assumptions += ["the items stand at file level, in a function body, in a class body or in a struct inside a namespace (seeded); C++ input", "header / closing-brace comment insertion is outside the model", "not one of the listed properties"]
